@@ -34,6 +34,7 @@ void register_narrow()
       if (p >= all.size())
         return;
       static std::string const fn = tag<i8, i8>("matrix_vector", "3x3");
+      static std::string const sg = sigbase<i8, i8>("matrix_vector");
       using LM = fm::static_<i8, 3, 3>;
       using RV = fv::static_<i8, 3>;
       for (auto const &a : all_over<3, 3>(all))
@@ -53,8 +54,8 @@ void register_narrow()
           vrt::maybe_sample();
           tbuf<i8, 3> const bx(x);
           static_assert(std::is_same_v<decltype(sa * mk_any<RV>(x)), fv::static_<int, 3>>);
-          C14_EQ(rdv(sa * mk_any<RV>(x)), want, fn + ":wrong", "A*x");
-          C14_EQ(rdv(ba.mat<3, 3>() * bx.vec()), want, fn + ":wrong:view", "A*x (view storages)");
+          C14_EQ(rdv(sa * mk_any<RV>(x)), want, sg + ":wrong", "A*x");
+          C14_EQ(rdv(ba.mat<3, 3>() * bx.vec()), want, sg + ":wrong:view", "A*x (view storages)");
         }
       }
     });
